@@ -28,7 +28,7 @@ def modes(f, shard):
         for m in f.walk_modes(small=shard["small"]):
             yield m
     if f.name in LIST_FORMATS or f.name.startswith("prin.readres"):
-        big = (40, 300) if shard["small"] else (40, 300, 1400, 9000)
+        big = (40, 300, 511, 512, 513, 1024) if shard["small"] else (40, 300, 511, 512, 513, 1024, 1400, 4095, 4096, 4097, 9000)
         edges = (15, 16, 17, 31, 32, 33, 63, 64, 65, 127, 128, 129, 255, 256, 257)
         if not shard["small"]:
             edges = tuple(range(5, 70)) + edges[9:]
